@@ -26,6 +26,18 @@ def auditedAs (published : List Nat) (v : Nat) : Option Nat :=
   | some m => some m
   | none => minOf (published.filter (fun p => decide (v < p)))
 
+/-- the two metadata fields compared (strings interned) -/
+structure CrateMeta where
+  description : Option Nat
+  repository : Option Nat
+deriving Repr, DecidableEq
+
+/-- `CratesAPICrateMetadata::consider_as_same` (src/format.rs): the description matches or the
+repository matches, each only when crates.io declares it -/
+def considerSame (reg loc : CrateMeta) : Bool :=
+  (reg.description.isSome && loc.description == reg.description) ||
+  (reg.repository.isSome && loc.repository == reg.repository)
+
 /-- a first-party package as the checks see it -/
 structure FirstParty where
   name : Nat
